@@ -51,7 +51,7 @@ COSMO_BOX = {
 }
 
 
-def gen_config(rng, force=False, mixed=False, custom_sne=False, with_kde=False, file_sne=False, dspl=False, mag_noninterp=False):
+def gen_config(rng, force=False, mixed=False, custom_sne=False, with_kde=False, file_sne=False, dspl=False, mag_noninterp=False, global_slope=0):
     """force: the configuration with the most sampled blocks (log-space scatters, two anisotropy scatters);
     mixed: a sample in which a kinematic lens WITHOUT a slope axis precedes lenses that sample their own slope"""
     cosmology = rng.choice(["FLCDM", "FwCDM", "w0waCDM", "oLCDM", "oLCDM"])
@@ -95,6 +95,18 @@ def gen_config(rng, force=False, mixed=False, custom_sne=False, with_kde=False, 
         kw.pop("anisotropy_sampling", None)
         kw["z_source"], kw["z_source2"] = rng.uniform(0.8, 1.4), rng.uniform(2.2, 3.2)
         lenses = [(kw, lt, data)] + [l for l in lenses if max(l[0].get("z_source", 0), l[0].get("z_source2", 0)) < 2.0][:1]
+    if global_slope:
+        # the slope as ONE global Gaussian population (its draws are not truncated to a grid) in front of kinematic lenses
+        # whose scaling is tabulated over the slope: on a single axis (global_slope = 1) and together with the anisotropy
+        # (global_slope = 2)
+        want_sl = ["gamma_pl"] if global_slope == 1 else ["a_ani", "gamma_pl"]
+        for _ in range(4000):
+            kw, lt, data = c07.gen_lens(rng, npop, {})
+            if kw.get("kin_scaling_param_list") == want_sl and lt in lc.KIN_TYPES:
+                break
+        kw.pop("lambda_mst_distribution", None)
+        kw.pop("anisotropy_sampling", None)
+        lenses = [(kw, lt, data)] + [l for l in lenses if "gamma_pl" not in (l[0].get("kin_scaling_param_list") or [])][:1]
     if mag_noninterp:
         # every magnification-carrying type (they alone ask the cosmology for a luminosity distance) in front of the sample
         for want_lt in lc.MAG_TYPES:
@@ -124,6 +136,12 @@ def gen_config(rng, force=False, mixed=False, custom_sne=False, with_kde=False, 
             model["lambda_mst_distribution"] = "GAUSSIAN"
             lo_l["lambda_mst_sigma"], up_l["lambda_mst_sigma"] = 0.0, 0.5
     nslope = sum(1 for kw, _, _ in lenses if "gamma_pl" in (kw.get("kin_scaling_param_list") or []))
+    if global_slope:
+        nslope = 0
+        model.update(gamma_pl_global_sampling=True, gamma_pl_global_dist="GAUSSIAN")
+        # (the axis of c07.gen_lens spans [1.5, 2.5]: the bounds of the population mean lie inside it, the draws need not)
+        lo_l["gamma_pl_mean"], up_l["gamma_pl_mean"] = 1.6, 2.4
+        lo_l["gamma_pl_sigma"], up_l["gamma_pl_sigma"] = 0.0, 0.4
     if nslope:
         lo_l["gamma_pl_list"], up_l["gamma_pl_list"] = [1.5] * nslope, [2.5] * nslope     # = the grid range of c07.gen_lens
     if rng.random() < 0.3:
@@ -421,7 +439,7 @@ def run(ctx, res):
     ncfg = ctx.n(28, 400)
     lines, meta = [], []
     for t in range(ncfg):
-        cfg = gen_config(rng, force=(t < 2), mixed=(t in (2, 3)), custom_sne=(t == 4), with_kde=(t in (5, 6)), file_sne=(t == 7), dspl=(t == 8), mag_noninterp=(t == 9))
+        cfg = gen_config(rng, force=(t < 2), mixed=(t in (2, 3)), custom_sne=(t == 4), with_kde=(t in (5, 6)), file_sne=(t == 7), dspl=(t == 8), mag_noninterp=(t == 9), global_slope=(1 if t == 10 else 2 if t == 11 else 0))
         if t in (5, 7, 8):
             cfg["cosmology"] = "oLCDM"      # the chain term / a supernova sample read from file together with the curved-model guard
             cfg["bounds"]["kwargs_lower_cosmo"], cfg["bounds"]["kwargs_upper_cosmo"] = (
